@@ -105,6 +105,18 @@ var ConcatFunc = function.New(&function.Spec{
 			if len(vals) == 0 {
 				return cty.ListValEmpty(retType.ElementType()).WithMarks(markses...), nil
 			}
+			for _, v := range vals[1:] {
+				if !v.Type().Equals(vals[0].Type()) {
+					// Only possible if the element type has dynamic
+					// placeholders that the elements fill differently.
+					for _, arg := range args {
+						if !arg.IsWhollyKnown() {
+							return cty.UnknownVal(retType).WithMarks(markses...), nil
+						}
+					}
+					return cty.NilVal, fmt.Errorf("all list elements must have the same type")
+				}
+			}
 
 			return cty.ListVal(vals).WithMarks(markses...), nil
 		case retType.IsTupleType():
